@@ -78,7 +78,7 @@ struct RandSystem {
             // specialised node classes (e.g. a childless Translation on Ground with identity frames is RBNodeLoneParticle)
             // (The lone-particle node itself -- childless Translation on Ground with identity frames -- keeps different
             // internal temporaries and is generated only by the dedicated systems of harness/C02_probe.cpp.)
-            int special = (onlyType >= 0 || reloc) ? 9 : r.I(0, 9);
+            int special = r.I(0, 9); if (onlyType >= 0) special = 9;   // always draw, so that paired builds consume the same random stream
             if (special <= 1 && !(ty == 10 && p == 0)) { xpf = Transform(); xbm = Transform(); }
             else if (special <= 3) { xpf = Transform(xpf.p()); xbm = Transform(xbm.p()); }
             MobilizedBody& parent = matter.updMobilizedBody(MobilizedBodyIndex(p));
